@@ -36,15 +36,25 @@ Definition nonempty {A} (l : list A) : bool := match l with [] => false | _ => t
 Definition has (fl bit : Z) : bool := negb (Z.land fl bit =? 0).
 
 (* ---- _pack ---------------------------------------------------------------- *)
-(* self._flags = 0; if ...: self._flags |= FLAG ... *)
-Definition flags_b (b_size b_ug b_mode b_time b_ext : bool) : Z :=
-  let f := 0 in
+(* if ...: self._flags |= FLAG ..., starting from the value `init` of self._flags *)
+Definition flags_b_from (init : Z) (b_size b_ug b_mode b_time b_ext : bool) : Z :=
+  let f := init in
   let f := if b_size then Z.lor f FLAG_SIZE else f in
   let f := if b_ug then Z.lor f FLAG_UIDGID else f in
   let f := if b_mode then Z.lor f FLAG_PERMISSIONS else f in
   let f := if b_time then Z.lor f FLAG_AMTIME else f in
   let f := if b_ext then Z.lor f FLAG_EXTENDED else f in
   f.
+
+(* self._flags = 0; if ...: self._flags |= FLAG ... *)
+Definition flags_b := flags_b_from 0.
+
+Definition flags_from (init : Z) (a : attrs) : Z :=
+  flags_b_from init (is_some (a_size a))
+          (is_some (a_uid a) && is_some (a_gid a))
+          (is_some (a_mode a))
+          (is_some (a_atime a) && is_some (a_mtime a))
+          (nonempty (a_ext a)).
 
 Definition flags_of (a : attrs) : Z :=
   flags_b (is_some (a_size a))
@@ -67,9 +77,12 @@ Definition enc_ug (fl : Z) (a : attrs) : result (list Z) :=
   else Ok [].
 Definition enc_mode (fl : Z) (a : attrs) : result (list Z) :=
   if has fl FLAG_PERMISSIONS then opt_u32 (a_mode a) else Ok [].
+(* msg.add_int(int(self.st_atime)): int(None) is a TypeError (reachable only with stale flags) *)
+Definition opt_time (o : option Z) : result (list Z) :=
+  match o with Some v => pack_u32 v | None => Raise TypeErr end.
 Definition enc_times (fl : Z) (a : attrs) : result (list Z) :=
   if has fl FLAG_AMTIME
-  then bind (opt_u32 (a_atime a)) (fun x => bind (opt_u32 (a_mtime a)) (fun y => Ok (x ++ y)))
+  then bind (opt_time (a_atime a)) (fun x => bind (opt_time (a_mtime a)) (fun y => Ok (x ++ y)))
   else Ok [].
 
 (* for key, val in self.attr.items(): msg.add_string(key); msg.add_string(val) *)
@@ -87,14 +100,26 @@ Definition enc_ext (fl : Z) (a : attrs) : result (list Z) :=
        bind (enc_pairs (a_ext a)) (fun e => Ok (c ++ e)))
   else Ok [].
 
-Definition pack (a : attrs) : result (list Z) :=
-  let fl := flags_of a in
+(* everything after the flags have been computed *)
+Definition pack_with (fl : Z) (a : attrs) : result (list Z) :=
   bind (pack_u32 fl) (fun h =>
   bind (enc_size fl a) (fun s1 =>
   bind (enc_ug fl a) (fun s2 =>
   bind (enc_mode fl a) (fun s3 =>
   bind (enc_times fl a) (fun s4 =>
   bind (enc_ext fl a) (fun s5 => Ok (h ++ s1 ++ s2 ++ s3 ++ s4 ++ s5))))))).
+
+Definition pack (a : attrs) : result (list Z) := pack_with (flags_of a) a.
+
+(* The object keeps self._flags between calls (set by an earlier _unpack or _pack).
+   pack_obj_from init a = what _pack writes and the value of self._flags afterwards when the
+   flag computation starts from `init`. *)
+Definition pack_obj_from (init : Z) (a : attrs) : result (list Z) * Z :=
+  let fl := flags_from init a in (pack_with fl a, fl).
+(* _pack as it is: its first statement is self._flags = 0, whatever `prior` value the object holds *)
+Definition pack_obj (prior : Z) (a : attrs) : result (list Z) * Z := pack_obj_from 0 a.
+(* _pack without that statement: the prior flags leak into the encoding *)
+Definition pack_obj_noreset (prior : Z) (a : attrs) : result (list Z) * Z := pack_obj_from prior a.
 
 (* ---- _unpack -------------------------------------------------------------- *)
 (* self.attr[key] = val on a dict kept in insertion order *)
@@ -177,6 +202,10 @@ Definition canon_attrs (a : attrs) : list Z :=
   Z.of_nat (length (a_ext a)) :: flat_map (fun kv => canon_str (fst kv) ++ canon_str (snd kv)) (a_ext a).
 
 Definition run_pack (a : attrs) : list Z := canon_result (pack a).
+(* _pack on an object whose _flags currently hold `prior`: encoding (or exception), then the flags
+   the object holds afterwards *)
+Definition run_pack_obj (c : Z * attrs) : list Z :=
+  let '(r, fl) := pack_obj (fst c) (snd c) in canon_result r ++ (-1) :: enc_z fl.
 Definition run_unpack (buf : list Z) : list Z :=
   let '(fl, a, p) := unpack buf 0 in enc_z fl ++ canon_attrs a ++ [Z.of_nat p].
 (* pack then unpack, followed by arbitrary trailing bytes *)
